@@ -39,8 +39,10 @@ import (
 	"testing"
 	"time"
 
+	"github.com/btcsuite/btcd/btcutil/v2"
 	"github.com/btcsuite/btcd/chainhash/v2"
 	"github.com/btcsuite/btcd/wire/v2"
+	"github.com/lightningnetwork/lnd/chainio"
 	"github.com/lightningnetwork/lnd/chainntnfs"
 	"github.com/lightningnetwork/lnd/channeldb"
 	"github.com/lightningnetwork/lnd/clock"
@@ -48,6 +50,7 @@ import (
 	"github.com/lightningnetwork/lnd/input"
 	"github.com/lightningnetwork/lnd/invoices"
 	"github.com/lightningnetwork/lnd/kvdb"
+	lnmock "github.com/lightningnetwork/lnd/lntest/mock"
 	"github.com/lightningnetwork/lnd/lntypes"
 	"github.com/lightningnetwork/lnd/lnwallet"
 	"github.com/lightningnetwork/lnd/lnwallet/chainfee"
@@ -895,12 +898,25 @@ type c12Ev struct {
 	resIn  []int32
 	resOut []int32
 	stx    bool // use SignedTimeoutTx for the outgoing resolutions
+	// real, when set, is the close event dispatched by the real chainWatcher
+	// (*RemoteUnilateralCloseInfo or *LocalUnilateralCloseInfo).
+	real interface{}
+	// presence of a commit / anchor resolution in the (real) close summary
+	commit, anchor bool
 }
 
 var c12CommitHash = chainhash.Hash{0xc1, 0x02}
 
 func (r *c12Run) enqueue(ev c12Ev) {
 	arb := r.a.arb
+	switch e := ev.real.(type) {
+	case *RemoteUnilateralCloseInfo:
+		arb.cfg.ChainEvents.RemoteUnilateralClosure <- e
+		return
+	case *LocalUnilateralCloseInfo:
+		arb.cfg.ChainEvents.LocalUnilateralClosure <- e
+		return
+	}
 	hash := c12CommitHash
 	closeTx := &wire.MsgTx{TxIn: []*wire.TxIn{{PreviousOutPoint: wire.OutPoint{}, Witness: [][]byte{{0x1}, {0x2}}}}}
 	if ev.kind == "local" {
@@ -974,7 +990,8 @@ func (r *c12Run) block(h uint32, ev c12Ev) {
 	r.a.obs.reset()
 	op := fmt.Sprintf("block h=%d ev=%s", h, ev.kind)
 	if ev.kind != "none" {
-		op += fmt.Sprintf(" evh=%d resin=%s resout=%s stx=%d", ev.evh, c12I32s(ev.resIn), c12I32s(ev.resOut), c12b(ev.stx))
+		op += fmt.Sprintf(" evh=%d resin=%s resout=%s stx=%d commit=%d anchor=%d", ev.evh, c12I32s(ev.resIn),
+			c12I32s(ev.resOut), c12b(ev.stx), c12b(ev.commit), c12b(ev.anchor))
 		r.enqueue(ev)
 	}
 	if err := r.a.arb.ProcessBlock(newBeatFromHeight(int32(h))); err != nil {
@@ -1127,6 +1144,446 @@ func (x *c12) arbCase(c *c12Case, scen int, fcErrKind int, closeKind string, scr
 }
 
 // ---------------------------------------------------------------------------
+// watcher level: the real chainWatcher on a real channel pair
+// ---------------------------------------------------------------------------
+
+// c12WHash maps a real payment hash back to the small hash id used in traces.
+type c12W struct {
+	x      *c12
+	alice  *lnwallet.LightningChannel
+	bob    *lnwallet.LightningChannel
+	hashID map[[32]byte]int
+	nextA  uint64 // next HTLC id offered by alice (us)
+	nextB  uint64 // next HTLC id offered by bob
+	liveA  []uint64
+	liveB  []uint64
+}
+
+var c12Ctx = context.Background()
+
+// amounts (sat): dust on both commitments / dust only on the peer's / output on both.
+func (w *c12W) amount(ours bool) lnwire.MilliSatoshi {
+	r := w.x.rng
+	var sat int
+	switch r.Intn(4) {
+	case 0:
+		sat = 500 + r.Intn(3000)
+	case 1:
+		if ours {
+			sat = 4300 + r.Intn(1100) // output on ours, dust on theirs
+		} else {
+			sat = 4500 + r.Intn(700)
+		}
+	default:
+		sat = 8000 + r.Intn(40000)
+	}
+	return lnwire.NewMSatFromSatoshis(btcutil.Amount(sat))
+}
+
+func (w *c12W) add(ours bool, expiry uint32) error {
+	var id uint64
+	if ours {
+		id = w.nextA
+	} else {
+		id = w.nextB
+	}
+	hid := 100 + int(id)
+	if !ours {
+		hid = 200 + int(id)
+	}
+	h := c12Hash(hid)
+	w.hashID[h] = hid
+	htlc := &lnwire.UpdateAddHTLC{ID: id, PaymentHash: h, Amount: w.amount(ours), Expiry: expiry}
+	from, to := w.alice, w.bob
+	if !ours {
+		from, to = w.bob, w.alice
+	}
+	if _, err := from.AddHTLC(htlc, nil); err != nil {
+		return err
+	}
+	if _, err := to.ReceiveHTLC(htlc); err != nil {
+		return err
+	}
+	if ours {
+		w.nextA++
+		w.liveA = append(w.liveA, id)
+	} else {
+		w.nextB++
+		w.liveB = append(w.liveB, id)
+	}
+	return nil
+}
+
+// fail removes a locked-in HTLC: the receiver fails it.
+func (w *c12W) fail(ours bool) error {
+	live := &w.liveA
+	if !ours {
+		live = &w.liveB
+	}
+	if len(*live) == 0 {
+		return nil
+	}
+	i := w.x.rng.Intn(len(*live))
+	id := (*live)[i]
+	*live = append((*live)[:i], (*live)[i+1:]...)
+	recv, sender := w.bob, w.alice
+	if !ours {
+		recv, sender = w.alice, w.bob
+	}
+	if err := recv.FailHTLC(id, []byte("x"), nil, nil, nil); err != nil {
+		return err
+	}
+	return sender.ReceiveFailHTLC(id, []byte("x"))
+}
+
+// half transitions
+func (w *c12W) aliceSigns() error {
+	c, err := w.alice.SignNextCommitment(c12Ctx)
+	if err != nil {
+		return err
+	}
+	return w.bob.ReceiveNewCommitment(c.CommitSigs)
+}
+
+func (w *c12W) bobSignsAliceRevokes() error {
+	c, err := w.bob.SignNextCommitment(c12Ctx)
+	if err != nil {
+		return err
+	}
+	if err := w.alice.ReceiveNewCommitment(c.CommitSigs); err != nil {
+		return err
+	}
+	rev, _, _, err := w.alice.RevokeCurrentCommitment()
+	if err != nil {
+		return err
+	}
+	_, _, err = w.bob.ReceiveRevocation(rev)
+	return err
+}
+
+func (w *c12W) toC12H(hs []channeldb.HTLC) []c12H {
+	out := make([]c12H, 0, len(hs))
+	for _, h := range hs {
+		out = append(out, c12H{idx: h.HtlcIndex, incoming: h.Incoming, amt: uint64(h.Amt),
+			exp: h.RefundTimeout, out: h.OutputIndex, hash: w.hashID[h.RHash]})
+	}
+	sort.Slice(out, func(i, j int) bool {
+		if out[i].incoming != out[j].incoming {
+			return !out[i].incoming
+		}
+		return out[i].idx < out[j].idx
+	})
+	return out
+}
+
+func (x *c12) watcherCase() {
+	r := x.rng
+	t := x.t
+	alice, bob, err := lnwallet.CreateTestChannels(t, channeldb.SingleFunderTweaklessBit)
+	if err != nil {
+		t.Fatalf("CreateTestChannels: %v", err)
+	}
+	w := &c12W{x: x, alice: alice, bob: bob, hashID: map[[32]byte]int{}}
+	base := uint32(600 + r.Intn(400))
+	exp := func() uint32 { return base + uint32(r.Intn(60)) }
+	must := func(err error) bool {
+		if err != nil {
+			x.n++
+			x.pf("CASE w%d kind=watcher-skip", x.n)
+			x.pf("END")
+			return false
+		}
+		return true
+	}
+	// base state: locked in on all commitments
+	nA, nB := r.Intn(4), r.Intn(3)
+	for i := 0; i < nA; i++ {
+		if !must(w.add(true, exp())) {
+			return
+		}
+	}
+	for i := 0; i < nB; i++ {
+		if !must(w.add(false, exp())) {
+			return
+		}
+	}
+	if nA+nB > 0 {
+		if !must(lnwallet.ForceStateTransition(alice, bob)) {
+			return
+		}
+		if nB > 0 {
+			if !must(lnwallet.ForceStateTransition(bob, alice)) {
+				return
+			}
+		}
+	}
+	// divergence between the three commitments
+	scen := r.Intn(7)
+	switch scen {
+	case 0: // all in sync
+	case 1: // we add and sign: pending = base + new
+		for i := 0; i < 1+r.Intn(2); i++ {
+			if !must(w.add(true, exp())) {
+				return
+			}
+		}
+		if !must(w.aliceSigns()) {
+			return
+		}
+	case 2, 3: // peer adds, signs, we revoke: ours = base + new; then maybe we sign
+		for i := 0; i < 1+r.Intn(2); i++ {
+			if !must(w.add(false, exp())) {
+				return
+			}
+		}
+		if !must(w.bobSignsAliceRevokes()) {
+			return
+		}
+		if scen == 3 && !must(w.aliceSigns()) {
+			return
+		}
+	case 4, 5: // peer fails one of our HTLCs, signs, we revoke: ours lacks it; then maybe we sign
+		if !must(w.fail(true)) {
+			return
+		}
+		if r.Intn(2) == 0 {
+			if !must(w.add(true, exp())) {
+				return
+			}
+		}
+		if !must(w.bobSignsAliceRevokes()) {
+			return
+		}
+		if scen == 5 && !must(w.aliceSigns()) {
+			return
+		}
+	case 6: // we fail one of the peer's HTLCs and/or add, and sign: pending differs
+		if !must(w.fail(false)) {
+			return
+		}
+		if !must(w.add(true, exp())) {
+			return
+		}
+		if !must(w.aliceSigns()) {
+			return
+		}
+	}
+
+	// dump the three commitments from the channel state before the spend
+	st := alice.State()
+	localC, remoteC, err := st.LatestCommitments()
+	if !must(err) {
+		return
+	}
+	c := &c12Case{fwd: map[uint64]bool{}, pre: map[int]int{}}
+	c.dout = c12Pick32(r, 5, 10, 18, 40)
+	c.din = c12Pick32(r, 5, 10, 18, 40)
+	c.grace = r.Intn(2) == 0
+	c.sets[c12L] = w.toC12H(localC.Htlcs)
+	c.sets[c12R] = w.toC12H(remoteC.Htlcs)
+	txs := [3]*wire.MsgTx{localC.CommitTx, remoteC.CommitTx, nil}
+	tip, err := st.RemoteCommitChainTip()
+	if err == nil && tip != nil {
+		c.pPresent = true
+		c.sets[c12P] = w.toC12H(tip.Commitment.Htlcs)
+		txs[c12P] = tip.Commitment.CommitTx
+	}
+	for s := 0; s < 3; s++ {
+		for _, h := range c.sets[s] {
+			if !h.incoming {
+				if _, ok := c.fwd[h.idx]; !ok {
+					c.fwd[h.idx] = r.Intn(10) < 7
+				}
+			}
+			if _, ok := c.pre[h.hash]; !ok {
+				c.pre[h.hash] = 0
+				if r.Intn(5) == 0 {
+					c.pre[h.hash] = 1
+				}
+			}
+		}
+	}
+	spent := r.Intn(3)
+	if txs[c12P] != nil && r.Intn(2) == 0 {
+		spent = c12P
+	}
+	if txs[spent] == nil {
+		spent = c12R
+	}
+	userFirst := r.Intn(2) == 0
+	h0 := base - 100 - uint32(r.Intn(50))
+	evh := h0 + 1 + uint32(r.Intn(3))
+
+	// the real chain watcher
+	notifier := &lnmock.ChainNotifier{
+		SpendChan:      make(chan *chainntnfs.SpendDetail, 1),
+		EpochChan:      make(chan *chainntnfs.BlockEpoch),
+		ConfChan:       make(chan *chainntnfs.TxConfirmation, 1),
+		ConfRegistered: make(chan struct{}, 1),
+	}
+	cw, err := newChainWatcher(chainWatcherConfig{
+		chanState:           st,
+		notifier:            notifier,
+		signer:              alice.Signer,
+		extractStateNumHint: lnwallet.GetStateNumHint,
+		chanCloseConfs:      fn.Some(uint32(1)),
+	})
+	if !must(err) {
+		return
+	}
+	if !must(cw.Start()) {
+		return
+	}
+	defer cw.Stop()
+	events := cw.SubscribeChannelEvents()
+	tx := txs[spent]
+	txHash := tx.TxHash()
+	beat := &chainio.MockBlockbeat{}
+	beat.On("logger").Return(log)
+	beat.On("Height").Return(int32(evh)).Maybe()
+	beat.On("NotifyBlockProcessed", nil, cw.quit).Return().Maybe()
+	notifier.SpendChan <- &chainntnfs.SpendDetail{
+		SpenderTxHash: &txHash, SpendingTx: tx, SpendingHeight: int32(evh),
+	}
+	select {
+	case cw.BlockbeatChan <- beat:
+	case <-time.After(5 * time.Second):
+		t.Fatalf("watcher did not take the blockbeat")
+	}
+
+	sub, key := "none", "none"
+	var cs *CommitSet
+	var real interface{}
+	var htlcRes *lnwallet.HtlcResolutions
+	var hasCommit, hasAnchor bool
+	select {
+	case e := <-events.RemoteUnilateralClosure:
+		sub, cs, real, htlcRes = "remote", &e.CommitSet, e, e.HtlcResolutions
+		hasCommit, hasAnchor = e.CommitResolution != nil, e.AnchorResolution != nil
+	case e := <-events.LocalUnilateralClosure:
+		sub, cs, real = "local", &e.CommitSet, e
+		if res, err := e.ContractResolutions.UnwrapOrErr(errors.New("none")); err == nil {
+			htlcRes = res.HtlcResolutions
+			hasCommit, hasAnchor = res.CommitResolution != nil, res.AnchorResolution != nil
+		}
+	case <-events.CooperativeClosure:
+		sub = "coop"
+	case <-events.ContractBreach:
+		sub = "breach"
+	case <-time.After(15 * time.Second):
+		sub = "timeout"
+	}
+	evKind := "none"
+	if cs != nil {
+		cs.ConfCommitKey.WhenSome(func(k HtlcSetKey) {
+			switch k {
+			case LocalHtlcSet:
+				key, evKind = "L", "local"
+			case RemoteHtlcSet:
+				key, evKind = "R", "remote"
+			case RemotePendingHtlcSet:
+				key, evKind = "P", "pending"
+			}
+		})
+	}
+
+	// trace: dump, what the watcher dispatched, then the dispatched CommitSet
+	// as the case's HTLC sets.
+	x.n++
+	id := fmt.Sprintf("w%d", x.n)
+	x.pf("CASE %s kind=watcher dout=%d din=%d grace=%d ppresent=%d fcerr=none scen=%d", id, c.dout, c.din,
+		c12b(c.grace), c12b(c.pPresent), scen)
+	for s := 0; s < 3; s++ {
+		for _, h := range c.sets[s] {
+			x.pf("D s=%s idx=%d in=%d amt=%d exp=%d out=%d hash=%d", c12SetNames[s], h.idx,
+				c12b(h.incoming), h.amt, h.exp, h.out, h.hash)
+		}
+	}
+	x.pf("WSPEND spent=%s sub=%s key=%s", c12SetNames[spent], sub, key)
+	disp := &c12Case{dout: c.dout, din: c.din, grace: c.grace, fwd: c.fwd, pre: c.pre}
+	if cs != nil {
+		for s := 0; s < 3; s++ {
+			if hs, ok := cs.HtlcSets[c12SetKeys[s]]; ok {
+				disp.sets[s] = w.toC12H(hs)
+				if s == c12P {
+					disp.pPresent = true
+				}
+			}
+		}
+	}
+	x.n-- // header() increments again
+	for s := 0; s < 3; s++ {
+		for _, h := range disp.sets[s] {
+			x.pf("H s=%s idx=%d in=%d amt=%d exp=%d out=%d hash=%d", c12SetNames[s], h.idx,
+				c12b(h.incoming), h.amt, h.exp, h.out, h.hash)
+		}
+	}
+	x.n++
+	var fw, pr []uint64
+	for i, v := range c.fwd {
+		if v {
+			fw = append(fw, i)
+		}
+	}
+	for i, v := range c.pre {
+		if v == 1 || v == 2 {
+			pr = append(pr, uint64(i))
+		}
+	}
+	sort.Slice(fw, func(i, j int) bool { return fw[i] < fw[j] })
+	sort.Slice(pr, func(i, j int) bool { return pr[i] < pr[j] })
+	x.pf("FWD %s", c12U64s(fw))
+	x.pf("PRE %s", c12U64s(pr))
+	defer x.pf("END")
+	if cs == nil || evKind == "none" || real == nil {
+		return
+	}
+
+	// the arbitrator: told the HTLC sets the link saw (the dump), fed the
+	// real close event.
+	a := c12NewArb(t, c, nil)
+	defer func() { _ = a.arb.Stop() }()
+	run := &c12Run{x: x, c: c, a: a}
+	a.setUptime(c.grace, r)
+
+	// unit level on the real CommitSet
+	trig := remoteCloseTrigger
+	tn := "remote"
+	if evKind == "local" {
+		trig, tn = localCloseTrigger, "local"
+	}
+	res := x.safe(func() string { return c12Render(a.arb.constructChainActions(cs, evh, trig)) })
+	x.pf("construct key=%s h=%d trig=%s => %s", key, evh, tn, res)
+
+	ev := c12Ev{kind: evKind, evh: evh, real: real, commit: hasCommit, anchor: hasAnchor}
+	if htlcRes != nil {
+		for _, ir := range htlcRes.IncomingHTLCs {
+			ev.resIn = append(ev.resIn, int32(ir.HtlcPoint().Index))
+		}
+		for _, or := range htlcRes.OutgoingHTLCs {
+			ev.resOut = append(ev.resOut, int32(or.HtlcPoint().Index))
+		}
+		sort.Slice(ev.resIn, func(i, j int) bool { return ev.resIn[i] < ev.resIn[j] })
+		sort.Slice(ev.resOut, func(i, j int) bool { return ev.resOut[i] < ev.resOut[j] })
+	}
+	run.start(h0)
+	if run.done {
+		return
+	}
+	if userFirst {
+		run.user()
+		if run.done {
+			return
+		}
+	}
+	run.block(evh+uint32(r.Intn(2)), ev)
+	if run.done {
+		return
+	}
+	run.block(evh+2, c12Ev{kind: "none"})
+}
+
+// ---------------------------------------------------------------------------
 // corpus: hand-written cases that run first
 // ---------------------------------------------------------------------------
 
@@ -1222,9 +1679,9 @@ func TestVerifC12(t *testing.T) {
 		HtlcTimeoutAction, HtlcClaimAction, HtlcFailDustAction, HtlcOutgoingWatchAction,
 		HtlcIncomingWatchAction, HtlcIncomingDustFinalAction, HtlcFailDanglingAction)
 
-	nUnit, nArb, maxH := 1200, 14000, 8
+	nUnit, nArb, nWatch, maxH := 1200, 14000, 250, 8
 	if tier == "thorough" {
-		nUnit, nArb, maxH = 25000, 450000, 14
+		nUnit, nArb, nWatch, maxH = 25000, 450000, 4000, 14
 	}
 
 	for _, e := range c12Corpus() {
@@ -1235,6 +1692,12 @@ func TestVerifC12(t *testing.T) {
 	}
 	for i := 0; i < nUnit; i++ {
 		x.unitCase(x.genCase(4+x.rng.Intn(3)), maxH)
+	}
+	for i := 0; i < nWatch; i++ {
+		x.watcherCase()
+		if i%50 == 0 {
+			w.Flush()
+		}
 	}
 	closeKinds := []string{"local", "remote", "pending", "local", "remote", "pending", "breach", "coop", "none"}
 	for i := 0; i < nArb; i++ {
